@@ -1,7 +1,7 @@
 (* C06 -- container prefixing changes neither interpretation nor source mapping of content.  Statements only;
    proofs in proofs/QuoteProofs.v; see DESIGN.md section 6 C06. *)
 From Coq Require Import String.
-From MdIt Require Import Prims Tables Tree Render Block Core Dump Dispatch QuoteProofs ShiftProofs.
+From MdIt Require Import Prims Tables Tree Render Block Core Dump Dispatch Inline QuoteProofs ShiftProofs InlineShiftProofs.
 Local Open Scope string_scope.
 Local Open Scope list_scope.
 Local Open Scope N_scope.
@@ -51,8 +51,14 @@ Proof. exact quote_scan_rewrites. Qed.
    item loop, tight-list flattening, the no-rule fallback, the nested tokenizer.
    And put together with the first half: the quote rule applied to the document "> " ++ T_1 .. "> " ++ T_n returns, as the
    content of the quote, the shifted tree of T_1 .. T_n tokenized in a quote shell at nesting level 1.
-   NOT proved: the same for the inline pass (ranges of inline nodes follow the shifted position tables), the comparison
-   with D parsed at level 0 (level 1 vs 0 only matters at the nesting limit), the HTML wrapper, the list-item half. *)
+   The inline pass (below): whenever it returns a tree for a block tree it returns the shifted tree for the shifted
+   block tree -- every inline rule (text, line breaks, escapes, code spans, the three emphasis markers with delimiter
+   matching, links and images with their nested calls, autolinks, entities, inline HTML, the harness rules), look-ahead,
+   the nesting limit; every chain, every fuel, every parser built from the shipped plugins; and the fragment-joining
+   core rule commutes with the shift.  (An implication, not an equation: a marker length taken off a recorded offset
+   can underflow on the original offsets and not on the larger shifted ones.)
+   NOT proved: the comparison with D parsed at level 0 (level 1 vs 0 only matters at the nesting limit), the HTML
+   wrapper, the list-item half, and the composition of these pieces into one statement about `parse`. *)
 Theorem C06_block_tokenizer_shift_invariant : forall P, atf P = true -> forall cfg fuel st, sinv st ->
   btokenize fuel cfg (sh P st) = fmap (sh P) (btokenize fuel cfg st).
 Proof. exact btokenize_sh. Qed.
@@ -68,6 +74,39 @@ Theorem C06_quote_of_prefixed_document : forall cfg f texts root refs, texts <> 
     ret (push_node st' (set_map (b_node inner') mp), true).
 Proof. exact quote_of_prefixed_document. Qed.
 
+Theorem C06_inline_pass_shift_invariant : forall P fuel cfg refs, pairs_plain P cfg ->
+  forall n n', inline_walk fuel cfg refs n = inr n' -> inline_walk fuel cfg refs (sh_node P n) = inr (sh_node P n').
+Proof. exact inline_walk_shift. Qed.
+
+Theorem C06_inline_parse_shift_invariant : forall P fuel cfg src mp nd refs, pairs_plain P cfg ->
+  forall nd', inline_parse fuel cfg src mp nd refs = inr nd' ->
+  inline_parse fuel cfg src (map (sh_ent P) mp) (sh_node P nd) refs = inr (sh_node P nd').
+Proof. exact inline_parse_shift. Qed.
+
+Theorem C06_fragments_join_shift_invariant : forall P n, fj_walk (sh_node P n) = sh_node P (fj_walk n).
+Proof. exact fj_walk_shift. Qed.
+
+Theorem C06_shipped_inline_pass_shift : forall P cfg nest ic tp ts fuel refs n n',
+  let icf := ICfg ic (md_maxnest (build_md cfg nest)) tp ts
+                  (map (fun p : N * (bool * list (option kind)) => (fst p, snd (snd p))) (md_pairs (build_md cfg nest))) in
+  inline_walk fuel icf refs n = inr n' ->
+  inline_walk fuel icf refs (sh_node P n) = inr (sh_node P n') /\
+  fj_walk (sh_node P n') = sh_node P (fj_walk n').
+Proof. exact shipped_inline_pass_shift. Qed.
+
+(* non-vacuity: the default parser's inline pass on a paragraph with emphasis, a code span and a link returns, and the
+   shifted run returns the shifted tree *)
+Example C06_inline_shift_nonvacuous :
+  let para := mk KParagraph (Some (SRel 0 0, SRel 0 22))
+                 [mk (KInlineRoot (bs "a *b* `c` [d](e) &amp;") [(0, SRel 0 0)]) None []] in
+  let icf := ICfg [I_TEXT; I_NEWLINE; I_ESCAPE; I_BACKTICK; I_EMPH_STAR; I_LINK; I_ENTITY] 100 true []
+                  [(42, [Some (KEm 42); Some (KStrong 42); None])] in
+  match inline_walk 10 icf [] para with
+  | inr t => inline_walk 10 icf [] (sh_node QP para) = inr (sh_node QP t) /\ 6 <= N.of_nat (length (n_children t))
+  | inl _ => False
+  end.
+Proof. vm_compute. split; [reflexivity|discriminate]. Qed.
+
 (* non-vacuity: the invariant holds for the line records of tab-free ASCII texts, and the shift is what it says *)
 Example C06_shift_nonvacuous :
   atf (bs "  - a `b`") = true /\ sh_rec QP (mk_line (bs "  - a")) = LRec (bs ">   - a") 4 2%Z /\
@@ -82,3 +121,7 @@ Proof. vm_compute. split; reflexivity. Qed.
 Print Assumptions C06_quote_lines_are_shifted_lines.
 Print Assumptions C06_block_tokenizer_shift_invariant.
 Print Assumptions C06_quote_of_prefixed_document.
+Print Assumptions C06_inline_pass_shift_invariant.
+Print Assumptions C06_inline_parse_shift_invariant.
+Print Assumptions C06_fragments_join_shift_invariant.
+Print Assumptions C06_shipped_inline_pass_shift.
